@@ -197,7 +197,8 @@ def d_fn(cfg):
         s = jax.vmap(dist.sample)(keys)
         s2, l2 = jax.vmap(dist.sample_and_log_prob)(keys)
         l2b = jax.vmap(dist.log_prob)(s2)
-        return dict(lp=lp, pr=pr, ent=dist.entropy(), mode=dist.mode(), s=s, s2=s2, l2=l2, l2b=l2b)
+        # the whole support in ONE call (values with a leading batch axis), next to the per-value calls above
+        return dict(lp=lp, pr=pr, ent=dist.entropy(), mode=dist.mode(), s=s, s2=s2, l2=l2, l2b=l2b, lp_batch=dist.log_prob(values), pr_batch=dist.prob(values))
 
     def run(P, values, keys):
         def one(v):
@@ -327,6 +328,11 @@ def d_judge(case, r, support, ctx: Ctx):
     ok = close(lp, ref, rtol=1e-5, atol=1e-5)
     if not ok.all():
         fail("log_prob-vs-reference", worst(lp, ref, ok))
+    for nm, one_by_one in (("lp_batch", lp), ("pr_batch", pr)):
+        if nm in m:
+            got_b = np.asarray(m[nm], dtype=np.float64)
+            if got_b.shape != one_by_one.shape or not np.array_equal(np.isnan(got_b), np.isnan(one_by_one)) or not close(np.nan_to_num(got_b, neginf=-1e30), np.nan_to_num(one_by_one, neginf=-1e30), rtol=1e-5, atol=1e-6).all():
+                fail("batched-call-differs-from-single-calls", f"{nm[:2]}: one call on the {V} support points gives shape {got_b.shape} values {got_b.ravel()[:6].tolist()}..., the single calls {one_by_one.shape} {one_by_one.ravel()[:6].tolist()}...")
     with np.errstate(over="ignore"):
         e = np.exp(lp)
     ok = close(pr, e, rtol=1e-5, atol=1e-6)
